@@ -16,7 +16,7 @@ RULE = (
     "axes, permute the axes, then store as C / Fortran / negative-stride / transposed / strided view. Oracle "
     "(metamorphic): complete observation equal to the base run when the reference model says the matching is uniquely "
     "determined, otherwise only tie-independent fields (flips renumber connected components and may reorder tied "
-    "candidates). Non-trivial: tp>0 in the base run and the transformation is not the identity; distinct = distinct "
+    "candidates) - except for caller-labelled instances matched by IoU or Dice, where ties are resolved by label order and scores are exact: there the complete observation must be invariant (a dedicated family builds exactly tied candidates of different volume). Non-trivial: tp>0 in the base run and the transformation is not the identity; distinct = distinct "
     "canonical case."
 )
 ASSUMPTIONS = [
